@@ -56,6 +56,22 @@ class Slice(object):
         return 'Slice(@%x,%s,%s)' % (id(self.buf) & 0xffff, self.start, self.len)
 
 
+class BytePtr(object):
+    """*mut u8 obtained by casting a pointer into a buffer of 64-bit words"""
+    __slots__ = ('buf', 'start')
+
+    def __init__(self, buf, start):
+        self.buf, self.start = buf, start
+
+
+class ByteSlice(object):
+    """&[u8] view over a word buffer (slice::from_raw_parts(words.as_ptr() as *const u8, n*8))"""
+    __slots__ = ('buf', 'start', 'nbytes')
+
+    def __init__(self, buf, start, nbytes):
+        self.buf, self.start, self.nbytes = buf, start, nbytes
+
+
 class StrV(object):
     __slots__ = ('s',)
 
